@@ -314,6 +314,23 @@ fn main() {
     let i: Id = 1;
     println(p.a, p.b, i, area());
 }`)},
+	{"many-warnings", Single("fn main() {\n    let unused_00 = 0;\n    let unused_01 = 1;\n    let unused_02 = 2;\n    let unused_03 = 3;\n    let unused_04 = 4;\n    let unused_05 = 5;\n    let unused_06 = 6;\n    let unused_07 = 7;\n    let unused_08 = 8;\n    let unused_09 = 9;\n    let unused_10 = 10;\n    let unused_11 = 11;\n    let unused_12 = 12;\n    let unused_13 = 13;\n    let unused_14 = 14;\n    let unused_15 = 15;\n    let unused_16 = 16;\n    let unused_17 = 17;\n    let unused_18 = 18;\n    let unused_19 = 19;\n    let unused_20 = 20;\n    let unused_21 = 21;\n    let unused_22 = 22;\n    let unused_23 = 23;\n    let unused_24 = 24;\n    let unused_25 = 25;\n    let unused_26 = 26;\n    let unused_27 = 27;\n    let unused_28 = 28;\n    let unused_29 = 29;\n    let unused_30 = 30;\n    let unused_31 = 31;\n    let unused_32 = 32;\n    let unused_33 = 33;\n    let unused_34 = 34;\n    let unused_35 = 35;\n    let unused_36 = 36;\n    let unused_37 = 37;\n    let unused_38 = 38;\n    let unused_39 = 39;\n    let unused_40 = 40;\n    let unused_41 = 41;\n    let unused_42 = 42;\n    let unused_43 = 43;\n    println(\"w\");\n}\nfn spare_a() {}\nfn spare_b() {}\n")},
+	{"fails-at-once", Single(`
+fn main() {
+    println("before");
+    throw("boom");
+}`)},
+	{"three-imports-one-broken", Program{Entry: "main", Modules: map[string]string{
+		"main":   "import { helper } from helper;\nimport { broken } from broken;\nimport { other } from other;\nfn main() { helper(); broken(); other(); let t: str = 1; }\n",
+		"helper": "pub fn helper() { let unused_h = 1; println(\"helper\"); }\nfn spare() {}\nfn main() {}\n",
+		"broken": "pub fn broken() {\n    let a = (1 + ;\n}\nfn main() {}\n",
+		"other":  "pub fn other() -> int { let unused_o = 2; \"not an int\" }\nfn main() {}\n",
+	}}},
+	{"two-imports-broken-first", Program{Entry: "main", Modules: map[string]string{
+		"main":   "import { broken } from broken;\nimport { helper } from helper;\nfn main() { broken(); helper(); }\n",
+		"helper": "pub fn helper() { let unused_h = 1; let s: int = \"x\"; }\nfn main() {}\n",
+		"broken": "pub fn broken() { let s = \"never closed;\n}\nfn main() {}\n",
+	}}},
 	{"cast-two-wrong-fields", Single(`
 fn main() {
     try {
@@ -609,6 +626,12 @@ func runC14(t *testing.T, spec RunSpec) *Verdict {
 		return v
 	}
 	progs := []c14Prog{p}
+	if n := spec.P("repeat_n", 0); n > 1 && base.po.Outcome != "crash" {
+		// the same program many times in one process (state that builds up run after run)
+		for len(progs) < n {
+			progs = append(progs, p)
+		}
+	}
 	if other := spec.P("repeat_after", -1); other >= 0 && other < len(c14Corpus) && c14Baseline(t, c14Corpus[other], backend).skip == "" && c14Baseline(t, c14Corpus[other], backend).po.Outcome != "crash" && base.po.Outcome != "crash" && !readsClock(p.prog) {
 		// the same program again in the same process after another program
 		progs = []c14Prog{p, c14Corpus[other], p}
@@ -646,6 +669,14 @@ func runC14(t *testing.T, spec RunSpec) *Verdict {
 			return false
 		}
 		return true
+	}
+	if n := spec.P("repeat_n", 0); n > 1 && spec.P("repeat_after", -1) < 0 {
+		for i := range progs {
+			if !check(i, fmt.Sprintf("repetition %d of %d in the same process", i+1, len(progs))) {
+				break
+			}
+		}
+		return v
 	}
 	if check(0, "run") && len(progs) == 3 {
 		if check(2, "repetition in the same process") {
@@ -771,6 +802,20 @@ func planC14(t *testing.T, tier string, seed uint64) ([]RunSpec, error) {
 				s.Seed = runSeed(seed, idx)
 				idx++
 				plan = append(plan, s)
+			}
+			if p.name == "fails-at-once" || p.name == "runtime-error-trace" || p.name == "obj-print" {
+				for k := 0; k < 2; k++ {
+					s := RunSpec{Property: "C14", Workload: "c14/" + p.name + "/" + []string{"vm", "interp"}[backend] + "/many-repetitions", Params: map[string]int{"prog": pi, "backend": backend, "repeat_n": []int{150, 320}[k]}}
+					s.Sim = swarm(seed, idx)
+					s.Sim.StepCostNs = 100
+					s.Sim.Quantum = nil
+					s.Sim.ClockJumps = false
+					s.Sim.MapPerm = k == 1
+					s.Sim.PPerm = 0.2
+					s.Seed = runSeed(seed, idx)
+					idx++
+					plan = append(plan, s)
+				}
 			}
 			// the host cancels from inside a host call the program makes: how far the single-threaded
 			// program still gets must not depend on the schedule of anything else
